@@ -102,7 +102,15 @@ def decide(prop, mod, results, tier, seed, wall):
             if not ok:
                 crash.append({"task": r["task"], "error": f"vacuity: cover point {label} unreachable under the contract's preconditions"})
         is_bounded = bool(r.get("bounded")) or bool(r.get("bounds_applied"))
-        for o in r["obligations"]:
+        obs = list(r["obligations"])
+        fb = r.get("fallback")
+        if fb:
+            # the unbounded run left the subset; only refutations of the bounded retry are used
+            for o in fb["obligations"]:
+                if o["status"] == "failed":
+                    o = dict(o, fallback_bound=fb["bounded"])
+                    obs = [x for x in obs if x["name"] != o["name"]] + [o]
+        for o in obs:
             row = dict(o, task=r["task"])
             if is_bounded:
                 row["bounded"] = r.get("bounded") or ", ".join(r.get("bounds_applied", []))
@@ -167,7 +175,7 @@ def decide(prop, mod, results, tier, seed, wall):
     if undecided and exit_code == 0:
         exit_code = 2
     for u in undecided:
-        lines.append(f"UNDECIDED property={prop} obligation={u.get('obligation', u.get('task'))} reason={u['reason']} {u.get('detail', '')[:600]}")
+        lines.append(f"UNDECIDED property={prop} obligation={u.get('obligation', u.get('task'))} reason={u['reason']} {(u.get('detail', '') or '').splitlines()[0][:400] if u.get('detail') else ''}")
     level = getattr(mod, "LEVEL", "proof")
     bounded_dis = len([b for b in bounded_rows if b["status"] == "discharged"])
     cov = {
